@@ -131,7 +131,7 @@ static void check(Ctx &c, const Cfg &E, const TasmanianSparseGrid &G, const Tasm
     }else if (!weighted(E.rule)){
         // measure (and the first moments for affine-reproducing piecewise rules); with a conformal map only when g' is integrated exactly
         bool ok_measure = true, ok_first = false;
-        if (G.isLocalPolynomial()){ ok_measure = (G.getRule() != rule_localp0) && !(G.getOrder() == 0 && false); ok_first = G.getOrder() != 0 && G.getRule() != rule_localp0 && E.depth >= 1; if (G.getOrder() != 0 && E.depth < 1 && G.getRule() == rule_localpb) ok_first = true; }
+        if (G.isLocalPolynomial()){ ok_measure = (G.getRule() != rule_localp0); ok_first = G.getOrder() != 0 && G.getRule() != rule_localp0 && E.depth >= 1; if (G.getOrder() != 0 && E.depth < 1 && G.getRule() == rule_localpb) ok_first = true; }
         if (G.isWavelet()) ok_first = true;
         if (conf){ ok_first = false; ok_measure = false;
             if (G.isGlobal() || G.isSequence()){ auto qs = G.getGlobalPolynomialSpace(false); for(size_t s=0;s<qs.size()/d;s++){ bool all = true; for(int j=0;j<d;j++) if (qs[s*d+j] < 2 * E.conformal[j]) all = false; if (all) ok_measure = true; } if (G.getRule() == rule_clenshawcurtis0 || G.getRule() == rule_chebyshev) ok_measure = false; } }
